@@ -87,6 +87,7 @@ inductive Refuse where
   | rsFtiFields             -- FEC 5: B + parity > 255, FEC 129: B + parity > 65535 (FTI field widths)
   | rsBlockOver255
   | blockOverKmax
+  | raptorBlockLt4          -- Raptor: the partition uses a block of 2 or 3 source symbols
   | noSchemeSpecific
   | tooManyBlocks
   deriving DecidableEq, Repr, Inhabited
@@ -180,24 +181,24 @@ def rsChecks (oti : Oti) (transferLength : Nat) : Rs (Option Refuse) :=
       .ok (if q.1 + oti.parity > 255 then some .rsBlockOver255 else none)
   else .ok none
 
-/-- `FileDesc::new` after the transfer-length check, in source order -/
-def fileDescTail (oti : Oti) (transferLength : Nat) : Rs (Except Refuse Oti) :=
-  -- if (RS28 || RS28US) && oti.max_number_of_parity_symbols == 0 { return Err(..) }
-  if (oti.fec = .rs28 ∨ oti.fec = .rs28us) ∧ oti.parity = 0 then .ok (.error .rsNoParity) else
-  -- if RS28 || RS28US { field check; let (a_large, ..) = block_partitioning(..); if a_large + parity > 255 { Err } }
-  match rsChecks oti transferLength with
-  | .error w => .error w
-  | .ok (some r) => .ok (.error r)
-  | .ok none =>
+/-- the Raptor / RaptorQ part of `FileDesc::new` (after the Reed-Solomon part), in source order -/
+def raptorTail (oti : Oti) (transferLength : Nat) : Rs (Except Refuse Oti) :=
   -- if RaptorQ || Raptor { .. }
   if oti.fec = .raptorq ∨ oti.fec = .raptor then
     match Partition.blockPartitioning oti.maxSbl transferLength oti.esl with
     | .error w => .error w
     | .ok q =>
       let aLarge := q.1
+      let aSmall := q.2.1
+      let nbALarge := q.2.2.1
       let nbBlocks := q.2.2.2
       -- if a_large > max_block_symbols { return Err(..) }
       if aLarge > maxBlockSymbols oti.fec then .ok (.error .blockOverKmax) else
+      -- if Raptor && ((nb_a_large > 0 && small_block(a_large)) || (nb_blocks > nb_a_large && small_block(a_small)))
+      --   { return Err(..) }      with small_block(k) = k == 2 || k == 3
+      if oti.fec = .raptor ∧ ((nbALarge > 0 ∧ (aLarge = 2 ∨ aLarge = 3)) ∨
+                              (nbBlocks > nbALarge ∧ (aSmall = 2 ∨ aSmall = 3))) then
+        .ok (.error .raptorBlockLt4) else
       -- if oti.scheme_specific.is_none() { return Err(..) }
       if oti.scheme.isNone then .ok (.error .noSchemeSpecific) else
       -- let nb_blocks: u8 / u16 = nb_blocks.try_into().map_err(..)?;
@@ -205,6 +206,16 @@ def fileDescTail (oti : Oti) (transferLength : Nat) : Rs (Except Refuse Oti) :=
       -- scheme.source_blocks_length = nb_blocks.max(1)
       .ok (.ok (setZ oti nbBlocks))
   else .ok (.ok oti)
+
+/-- `FileDesc::new` after the transfer-length check, in source order -/
+def fileDescTail (oti : Oti) (transferLength : Nat) : Rs (Except Refuse Oti) :=
+  -- if (RS28 || RS28US) && oti.max_number_of_parity_symbols == 0 { return Err(..) }
+  if (oti.fec = .rs28 ∨ oti.fec = .rs28us) ∧ oti.parity = 0 then .ok (.error .rsNoParity) else
+  -- if RS28 || RS28US { field checks; let (a_large, ..) = block_partitioning(..); if a_large + parity > 255 { Err } }
+  match rsChecks oti transferLength with
+  | .error w => .error w
+  | .ok (some r) => .ok (.error r)
+  | .ok none => raptorTail oti transferLength
 
 /-- `FileDesc::new(priority, object, default_oti, ..)`: the checks in source order.
     Outer `Rs`: panic; inner `Except`: `Err(FluteError)` / the OTI of the `FileDesc`. -/
